@@ -695,6 +695,24 @@ def run_date_formats(P, rep, rule="R-TABLE.dateformats"):
         rep.ok(rule, "friendly_date_time", "-", "serialize and deserialize use %s" % sorted(x.rsplit("::", 1)[1] for x in ws))
     else:
         rep.viol(rule, "friendly_date_time", "-", "serde writer uses %s but reader %s" % (sorted(ws), sorted(rs)))
+    # same for Date: serde reads exactly the format it writes, and not through the lenient parser
+    DD = "liquid_core::model::scalar::date::"
+    ser = [f for f in P.fns.values() if f.id.startswith(DD + "friendly_date::serialize")]
+    de = [f for f in P.fns.values() if f.id.startswith(DD + "friendly_date::deserialize")]
+    ws, rs = set(), set()
+    lenient = False
+    for f in ser:
+        ws |= {c for c in const_refs(P, f) if "FORMAT" in c}
+    for f in de:
+        rs |= {c for c in const_refs(P, f) if "FORMAT" in c}
+        for bi, t in P.calls(f):
+            if t.get("f") and t["f"]["id"].rsplit("::", 1)[1] in ("parse_date", "parse_date_time", "from_str"):
+                lenient = True
+    if ws and ws == rs and not lenient:
+        rep.ok(rule, "friendly_date", "-", "serialize and deserialize use %s" % sorted(x.rsplit("::", 1)[1] for x in ws))
+    else:
+        rep.viol(rule, "friendly_date", "-", "serde writer of Date uses %s but the reader %s%s: strings that merely look like dates change kind on a serde round trip"
+                 % (sorted(x.rsplit("::", 1)[1] for x in ws), sorted(x.rsplit("::", 1)[1] for x in rs), " plus the lenient template date parser" if lenient else ""))
     # the offset-detection pattern accepts every offset the printed form can carry
     import re
     pats = sorted({s for s in str_consts(P, parse) if "[" in s and "$" in s})
@@ -775,10 +793,13 @@ FILTER_OPS = {
     SF + "string::operate::ReplaceFirstFilter": ({"splitn", "replacen"}, {"rsplitn", "replace"}),
     SF + "string::operate::RemoveFirstFilter": ({"splitn", "replacen"}, {"rsplitn", "replace"}),
     SF + "html::NewlineToBrFilter": ({"replace"}, {"replacen"}),
+    SF + "slice::SliceFilter": ({"chars"}, {"graphemes", "grapheme_indices", "bytes", "unicode_words", "char_indices"}),
+    SF + "SizeFilter": ({"chars"}, {"graphemes", "grapheme_indices", "bytes", "unicode_words"}),
 }
 OPS_VOC = set("to_uppercase to_lowercase to_ascii_uppercase to_ascii_lowercase trim trim_start trim_end trim_matches trim_start_matches "
               "trim_end_matches rev reverse ceil floor round trunc max min first last next next_back nth nth_back chars get chain extend append "
-              "dedup retain filter filter_map join split rsplit split_whitespace replace replacen splitn rsplitn sort_by sort".split())
+              "dedup retain filter filter_map join split rsplit split_whitespace replace replacen splitn rsplitn sort_by sort "
+              "graphemes grapheme_indices bytes unicode_words char_indices".split())
 
 
 def run_filter_ops(P, rep, only=None, rule="R-TABLE.filterops"):
@@ -829,3 +850,58 @@ def run_filter_ops(P, rep, only=None, rule="R-TABLE.filterops"):
             rep.viol(rule, site, P.where(fn), "`%s` puts the text on the wrong side of the input" % site)
         else:
             rep.ok(rule, site, P.where(fn), "receiver of push_str is %s" % ("the input" if recv_is_input else "the argument"))
+
+
+def states_queried(P, fn):
+    """Names of the State variants a body passes to ValueView::query_state."""
+    from origins import SelfOrigins
+    names = variants_of(P, "liquid_core::model::value::state::State")
+    out = set()
+    for body, _ in SelfOrigins(P, fn, seed={}).all_bodies():
+        for bi, t in P.calls(body):
+            f = t.get("f")
+            if not f or not f["id"].endswith("ValueView::query_state") or len(t["args"]) < 2:
+                continue
+            a = t["args"][1]
+            if a[0] == "k":
+                v = a[1].get("val")
+                out.add(names[v] if isinstance(v, int) and v < len(names) else str(v))
+                continue
+            ol = op_local(a)
+            found = False
+            for b in body.blocks:
+                for st in b["s"]:
+                    if st[0] == "a" and ol and st[1][0] == ol[0]:
+                        rv = st[2]
+                        if rv["k"] == "agg" and rv.get("id", "").endswith("state::State"):
+                            out.add(rv["vname"])
+                            found = True
+                        elif rv["k"] == "use" and rv["o"][0] == "k" and "val" in rv["o"][1]:
+                            v = rv["o"][1]["val"]
+                            out.add(names[v] if isinstance(v, int) and v < len(names) else str(v))
+                            found = True
+            if not found:
+                out.add("<computed>")
+    return out
+
+
+STATE_SPEC = {
+    "<liquid_lib::stdlib::filters::DefaultFilter as liquid_core::parser::filter::Filter>::evaluate": ({"DefaultValue"}, "default replaces nil, false and empty values only"),
+    "<liquid_lib::stdlib::blocks::if_block::ExistenceCondition>::evaluate": ({"Truthy"}, "a bare value is tested for truthiness"),
+}
+
+
+def run_state_use(P, rep, only=None, rule="R-TABLE.state"):
+    for key, (want, why) in sorted(STATE_SPEC.items()):
+        if only and not any(o in key for o in only):
+            continue
+        fns = P.by_key(key)
+        if len(fns) != 1:
+            rep.anchor_missing(rule, key)
+            continue
+        got = states_queried(P, fns[0])
+        site = key.split(" as ")[0].lstrip("<").rsplit("::", 1)[-1].replace(">::evaluate", "")
+        if got != want:
+            rep.viol(rule, site, P.where(fns[0]), "queries state %s; %s (needs %s)" % (sorted(got), why, sorted(want)))
+        else:
+            rep.ok(rule, site, P.where(fns[0]), "queries State::%s" % sorted(want)[0])
